@@ -17,7 +17,7 @@
    No proofs in this file. *)
 From Coq Require Import ZArith List Bool.
 From Bignums Require Import BigZ.
-From V Require Import Base.Field.
+From V Require Import Base.Field C13.Poly.
 Import ListNotations.
 Open Scope Z_scope.
 
@@ -147,6 +147,38 @@ Definition bw6_params_ok (x r xm1d3 loop1 : Z) : bool :=
 Definition mnt4_final_exp_ok (p r w1 w0 : Z) : bool := (w1 * p + w0) * r =? p * p + 1.
 Definition mnt6_final_exp_ok (p r w1 w0 : Z) : bool := (w1 * p + w0) * r =? p * p - p + 1.
 
+(* Field::SQRT_PRECOMP of a prime field.  kind 2 = Case3Mod4 [(p+1)/4] exactly when p = 3 mod 4;
+   otherwise kind 1 = TonelliShanks [two_adicity; quadratic_nonresidue_to_trace; trace_minus_one_div_two]
+   with p - 1 = 2^s (2 tm + 1) and the element = g^(2 tm + 1) of exact order 2^s *)
+Definition sqrt_precomp_ok (p g kind : Z) (v : list Z) : bool :=
+  if p mod 4 =? 3 then
+    (kind =? 2) && match v with [m] => m =? (p + 1) / 4 | _ => false end
+  else
+    (kind =? 1) &&
+    match v with
+    | [s; q; tm] => (2 <? p) && (0 <? s) && (0 <=? tm) && (p - 1 =? 2 ^ s * (2 * tm + 1)) &&
+                    (q =? fast_pow_mod g (2 * tm + 1) p) && (fast_pow_mod q (2 ^ (s - 1)) p =? p - 1)
+    | _ => false
+    end.
+
+(* BW6 (Brezing-Weng, k = 6, D = 3) curve over the BLS12 base field r = p_bls12(x), family of
+   El Housni-Guillevic: w = x^5 - 3x^4 + 3x^3 - x,
+     T_MOD_R_IS_ZERO:  t = -w + h_t r,      3y = w + 3 h_y r
+     otherwise:        t = w + 3 + h_t r,   3y = w + 3 + 3 h_y r
+   and 4p = t^2 + 3y^2; t is the trace of G1 (#E(F_p) = h1 r = p + 1 - t) and the G2 curve (order h2 r)
+   is one of the two sextic twists of trace (t +- 3y)/2 *)
+Definition bw6_w (x : Z) : Z := x ^ 5 - 3 * x ^ 4 + 3 * x ^ 3 - x.
+Definition bw6_t (x r ht : Z) (t0 : bool) : Z := if t0 then - bw6_w x + ht * r else bw6_w x + 3 + ht * r.
+Definition bw6_y3 (x r hy : Z) (t0 : bool) : Z :=
+  if t0 then bw6_w x + 3 * hy * r else bw6_w x + 3 + 3 * hy * r.
+Definition bw6_curve_ok (x p r ht hy : Z) (t0 : bool) (h1 h2 : Z) : bool :=
+  let t := bw6_t x r ht t0 in
+  let y3 := bw6_y3 x r hy t0 in
+  (12 * p =? 3 * t ^ 2 + y3 ^ 2) && (t =? p + 1 - h1 * r) && ((2 * (p + 1 - h2 * r) - t) ^ 2 =? y3 ^ 2).
+
+(* an ate loop count only matters modulo r: it must be congruent to t - 1 = p - #E(F_p) = p (mod r) *)
+Definition ate_loop_mod_ok (l p r : Z) : bool := (0 <? l) && (0 <? r) && ((l - p) mod r =? 0).
+
 Definition lists_eqb (a b : list Z) : bool :=
   (Nat.eqb (length a) (length b)) && forallb (fun xy => fst xy =? snd xy) (combine a b).
 Fixpoint forallb2 {A} (f : A -> A -> bool) (a b : list A) : bool :=
@@ -213,6 +245,15 @@ Section FieldChecks.
     (0 <=? e) && feqb F (fpow F (el a) e) (el c).
   Definition pow_isnt (a : list Z) (e : Z) (c : list Z) : bool :=
     (0 <=? e) && negb (feqb F (fpow F (el a) e) (el c)).
+  Definition nonzero_ok (a : list Z) : bool := negb (feqb F (el a) (f0 F)).
+  (* a * b^e = c *)
+  Definition mul_pow_is (a b : list Z) (e : Z) (c : list Z) : bool :=
+    (0 <=? e) && feqb F (el a * fpow F (el b) e) (el c).
+  (* simplified SWU, exceptional input u = 0 (x1 = b/(z a)): g(b/(z a)) = x1^3 + a x1 + b is a square
+     (RFC 9380 6.6.2 criterion 4; SWUConfig documents it as the convenient choice of ZETA); q = field size *)
+  Definition swu_exceptional_ok (q : Z) (a b z : list Z) : bool :=
+    let x := el b * finv F (el z * el a) in
+    Z.odd q && feqb F (fpow F (x * x * x + el a * x + el b) ((q - 1) / 2)) (f1 F).
   (* coordinates of x^2, x^3 -- used for twist coefficients *)
   Definition tower_sq (a : list Z) : list Z := fcoords F (el a * el a).
   Definition tower_cube (a : list Z) : list Z := fcoords F (el a * el a * el a).
@@ -302,4 +343,37 @@ Section FieldChecks.
     negb (feqb F (el a - el d) (f0 F)) &&
     feqb F (el ma * (el a - el d)) ((el a + el d) + (el a + el d)) &&
     (Z.odd q) && feqb F (fpow F (el mb * (el a - el d)) ((q - 1) / 2)) (f1 F).
+
+  (* ---- Wahby-Boneh isogeny (x, y) |-> (xn(x)/xd(x), y yn(x)/yd(x)) from E' : y^2 = x^3 + a' x + b'
+     to E : y^2 = x^3 + A x + B, coefficient lists lowest degree first: the polynomial identity
+        yn^2 (x^3 + a' x + b') xd^3 = (xn^3 + A xn xd^2 + B xd^3) yd^2
+     coefficient-wise (C13/Poly.v [iso_identity]), none of xd, yd, yn the zero polynomial *)
+  Definition els (l : list (list Z)) : list T := map el l.
+  Definition wb_iso_ok (a' b' A B : list Z) (xn xd yn yd : list (list Z)) : bool :=
+    negb (pzero (f0 F) (feqb F) (els xd)) && negb (pzero (f0 F) (feqb F) (els yd)) &&
+    negb (pzero (f0 F) (feqb F) (els yn)) &&
+    iso_identity (f0 F) (f1 F) (fadd F) (fmul F) (feqb F) (el a') (el b') (el A) (el B)
+                 (els xn) (els xd) (els yn) (els yd).
+
+  (* ---- a curve shipped both as twisted Edwards a x^2 + y^2 = 1 + d x^2 y^2 (generator (x, y)), with
+     Montgomery model Bm v^2 = u^3 + Am u^2 + u, and as short Weierstrass Y^2 = X^3 + sa X + sb
+     (generator (X, Y)):
+       - the SW model is the Weierstrass form of the Montgomery model under
+         (u, v) |-> ((u + Am/3)/Bm, v/Bm):   3 Bm^2 sa = 3 - Am^2,  27 Bm^3 sb = 2 Am^3 - 9 Am;
+       - the SW generator is the image of the TE generator: u = (1 + y)/(1 - y) and x = c u / v with
+         c^2 = 4 / (Bm (a - d))  (c = 1 when Bm (a - d) = 4, otherwise up to the choice of the square root).
+     Written without divisions, with u3 = 3 u = 3 Bm X - Am and v3 = 3 x v = 3 x Bm Y. *)
+  Definition sw_te_ok (a d x y mA mB sa sb X Y : list Z) : bool :=
+    let two := f1 F + f1 F in let three := two + f1 F in let four := two + two in
+    let nine := three * three in
+    let Am := el mA in let Bm := el mB in
+    let u3 := three * (Bm * el X) - Am in
+    let v3 := three * (el x * (Bm * el Y)) in
+    let k := Bm * (el a - el d) in
+    negb (feqb F three (f0 F)) && negb (feqb F Bm (f0 F)) &&
+    feqb F (three * (Bm * Bm) * el sa) (three - Am * Am) &&
+    feqb F (nine * three * (Bm * Bm * Bm) * el sb) (two * (Am * Am * Am) - nine * Am) &&
+    negb (feqb F (el y) (f1 F)) &&
+    feqb F (u3 * (f1 F - el y)) (three * (f1 F + el y)) &&
+    (if feqb F k four then feqb F v3 u3 else feqb F (v3 * v3 * k) (four * (u3 * u3))).
 End FieldChecks.
